@@ -210,6 +210,24 @@ def _debug_only(repo, scope):
     return excluded, obs
 
 
+def _field_key_of_attr(e):
+    """key of the orderedness engine's field map for an Attribute node: `<x>._dsl.attr` -> '_dsl.attr', also through a
+    helper local that is a plain single-assignment alias of the namespace (`dsl = inst._dsl; dsl.attr = set()`)"""
+    base = e.value
+    if isinstance(base, ast.Attribute) and base.attr == '_dsl':
+        return '_dsl.' + e.attr
+    if isinstance(base, ast.Name):
+        fn = enclosing(e, (ast.FunctionDef, ast.AsyncFunctionDef))
+        if fn is not None and base.id not in [a.arg for a in fn.args.args]:
+            vals = _local_assignments(fn).get(base.id, [])
+            if len(vals) == 1 and isinstance(vals[0], ast.Attribute) and vals[0].attr == '_dsl':
+                return '_dsl.' + e.attr
+    return e.attr
+
+
+T.field_key_of_attr = _field_key_of_attr      # the engine resolves the name at call time
+
+
 _CACHE = {}
 
 
@@ -1754,11 +1772,14 @@ def rule_once(repo):
         else:
             r.bad(tm, q, norm(st.targets[0]), "the table of emitted modules must be keyed by the unique name of the component "
                   "being translated, stored once per component", st.lineno)
-        val_calls = [x for x in ast.walk(st.value) if isinstance(x, ast.Call) and isinstance(x.func, ast.Attribute) and
+        sval = _inline(st.value, tc)          # helper locals for the two namespaces read as if written in place
+        val_calls = [x for x in ast.walk(sval) if isinstance(x, ast.Call) and isinstance(x.func, ast.Attribute) and
                      x.func.attr == 'rtlir_tr_component']
-        nsp = [norm(a) for c in val_calls for a in c.args]
-        if val_calls and all(mparam in a for a in nsp) and any('behavioral' in a for a in nsp) and any('structural' in a for a in nsp):
-            r.ok(tm, q, norm(st.value)[:120])
+        nargs = [a for c in val_calls for a in c.args]
+        nsp = [norm(a) for a in nargs]
+        if val_calls and all(mparam in _names_of_raw(a) for a in nargs) and any('behavioral' in a for a in nsp) and \
+                any('structural' in a for a in nsp):
+            r.ok(tm, q, norm(sval)[:120])
         else:
             r.bad(tm, q, norm(st.value)[:120], f"the stored text must be rtlir_tr_component of the behavioral and structural "
                   f"namespaces of `{mparam}` itself", st.lineno)
@@ -3890,6 +3911,16 @@ EQUIV = [
     _m('two-tables-separate-dict-calls', SL1,
        "    s.structural.component_explicit_module_name = {}\n    s.structural.component_no_synthesis = {}\n",
        "    s.structural.component_explicit_module_name = dict()\n    s.structural.component_no_synthesis = dict()\n", None),
+    _m('component-namespaces-through-helper-locals', TRANSLATOR,
+       "          components[name] = s.rtlir_tr_component(\n              get_component_nspace( s.behavioral, m ),\n"
+       "              get_component_nspace( s.structural, m ),\n          )\n",
+       "          behavioral_ns = get_component_nspace( s.behavioral, m )\n"
+       "          structural_ns = get_component_nspace( s.structural, m )\n"
+       "          components[name] = s.rtlir_tr_component( behavioral_ns, structural_ns )\n", None),
+    _m('dsl-namespace-through-alias', 'pymtl3/dsl/ComponentLevel2.py',
+       "    inst._dsl.update_ff = set()\n", "    dsl = inst._dsl\n    dsl.update_ff = set()\n", None),
+    _m('dsl-upblks-through-alias', 'pymtl3/dsl/ComponentLevel1.py',
+       "    inst._dsl.upblks      = set()\n", "    ns = inst._dsl\n    ns.upblks      = set()\n", None),
     _m('local-renamed-in-unique-name', VUTIL, "  param_name = param_hash.hexdigest()\n  return comp_name + \"__\" + param_name",
        "  digest = param_hash.hexdigest()\n  return comp_name + \"__\" + digest", None),
 ]
